@@ -45,6 +45,9 @@ SETS = {
     "extended_only": [plain("a"), plain("b"), ext("x1", "a and not b"), plain("u")],
     "extended_generate": [plain("a"), plain("b"), ext("x1", "a and not b", True), plain("u")],
     "extended_chain": [plain("a"), plain("b"), ext("x1", "a or b"), corr("c2", ["x1"]), plain("u")],
+    # rules shared by two correlation rules that search several rules at once; a correlation rule shared by two outer ones
+    "shared_subqueries": [plain("a"), plain("b"), corr("t1", ["a", "b"], ctype="temporal"), corr("t2", ["b", "a"], ctype="temporal"), plain("u")],
+    "shared_inner": [plain("a"), plain("b"), corr("in1", ["a", "b"], ctype="temporal"), corr("o1", ["in1"]), corr("o2", ["in1"])],
     "corr_by_id": [plain("a"), {**corr("c1", ["a"]), "id": ID_C}, corr("c2", [ID_C]), {**corr("c3", ["c1", ID_B2]), "id": ID_C3}, plain("b2", ID_B2)],
 }
 
@@ -57,7 +60,12 @@ def outcome(load, docs):
     except SigmaError as e:
         return ("error", type(e).__name__)      # at load time
     try:
-        b = TextQueryTestBackend()
+        class HookB(TextQueryTestBackend):          # a backend that uses the documented per-sub-query hook (not idempotent: applying it twice shows)
+            def convert_correlation_search_multi_rule_query_postprocess(self, query):
+                return "<" + query + ">"
+        from sigma.processing.pipeline import ProcessingPipeline
+        # a pipeline item gated by a log source condition: for a correlation rule it holds through the rules it refers to (directly or nested)
+        b = HookB(ProcessingPipeline.from_dict({"name": "p", "priority": 10, "transformations": [{"id": "m", "type": "field_name_mapping", "mapping": {"u": "U", "f": "F"}, "rule_conditions": [{"type": "logsource", "category": "c"}]}]}))
         b.convert(col)
         res = {}
         for r in col.rules:
